@@ -225,6 +225,32 @@ func structToMap(data any, visiting map[uintptr]bool) map[string]any {
 
 		result[tagName] = fieldValue
 	}
+
+	// Fields promoted from embedded structs are fields of the struct as well (x.Field in Go):
+	// list them under their JSON tag, or their Go name, unless a shallower field took the key.
+	for _, f := range reflect.VisibleFields(rt) {
+		if len(f.Index) < 2 || !f.IsExported() {
+			continue
+		}
+		fv, err := rv.FieldByIndexErr(f.Index)
+		if err != nil || !fv.CanInterface() {
+			continue
+		}
+		key := f.Name
+		if tag := strings.Split(f.Tag.Get("json"), ",")[0]; tag != "" {
+			key = tag
+		}
+		if _, taken := result[key]; taken {
+			continue
+		}
+		value := fv.Interface()
+		if fv.Kind() == reflect.Struct || (fv.Kind() == reflect.Ptr && fv.Type().Elem().Kind() == reflect.Struct) {
+			if fv.Kind() != reflect.Ptr || fv.IsNil() || !visiting[fv.Pointer()] {
+				value = structToMap(value, visiting)
+			}
+		}
+		result[key] = value
+	}
 	return result
 }
 
@@ -265,8 +291,8 @@ func AddGoNameAliases(m map[string]any, data any) {
 		return
 	}
 	rt := rv.Type()
-	for i := range rt.NumField() {
-		f := rt.Field(i)
+	// (own fields first, then the fields promoted from embedded structs)
+	for _, f := range reflect.VisibleFields(rt) {
 		if !f.IsExported() {
 			continue
 		}
